@@ -124,6 +124,7 @@ func (w *world) settle(smp *sample, actorsDone <-chan struct{}) {
 		abort()
 		return
 	}
+	w.asyncForSentinel()
 	w.sendSentinel()
 	if fin, quiet := stall.AwaitQuiet(w.sentinelAnswered, w.progress, 10*time.Second, 100*time.Second); !fin {
 		select {
@@ -197,8 +198,7 @@ func runStress(c *core.Case) {
 	}
 	if syncT {
 		w.pad = 9000 + r.Intn(8000)
-		w.p.Lib.SetSyncWrites(true)
-		w.p.Peer.SetSyncWrites(true)
+		w.syncTransport()
 		c.Count("stress_histories_on_a_synchronous_transport_with_large_responses", 1)
 	}
 	// a receipt for a message nobody sent, before any request: must reach
